@@ -1,4 +1,17 @@
 import BufProofs.Props.C13
 #print axioms BufProofs.C13.reduce_shape
 #print axioms BufProofs.C13.validate_sound
+#print axioms BufProofs.C13.join_under_root
+#print axioms BufProofs.C13.contains_iff_prefix
+#print axioms BufProofs.C13.view_frame_put
+#print axioms BufProofs.C13.view_frame_put_outside
+#print axioms BufProofs.C13.view_frame_delete
+#print axioms BufProofs.C13.view_frame_deleteAll
+#print axioms BufProofs.C13.view_frame_deleteAll_outside
+#print axioms BufProofs.C13.view_frame_get
+#print axioms BufProofs.C13.view_frame_walk
+#print axioms BufProofs.C13.escape_rejected
+#print axioms BufProofs.C13.rejected_iff
+#print axioms BufProofs.C13.archive_entry_contained
+#print axioms BufProofs.C13.invariant_preserved_put
 #print axioms BufProofs.C13.validate_old_counterexample
